@@ -144,8 +144,13 @@ def forests(n):
                 yield [first] + rest
 
 
-def build(shape):
-    """nested lists -> (ete3 tree, nodes in preorder, parent index list)"""
+NAME_MODES = ("unique", "unnamed", "same", "leafdup")
+
+
+def build(shape, names="unique"):
+    """nested lists -> (ete3 tree, nodes in preorder, parent index list).
+    names: unique = n<i>; unnamed = internal nodes '' (what ete3 gives unnamed Newick ancestors), leaves unique;
+    same = every node 'x'; leafdup = internal nodes named like some leaf (the queries are about node identity, never names)."""
     nodes, parent = [], []
     root = Tree()
 
@@ -153,7 +158,14 @@ def build(shape):
         i = len(nodes)
         nodes.append(node)
         parent.append(p)
-        node.name = f"n{i}"
+        if names == "unique" or (names in ("unnamed", "leafdup") and not sh):
+            node.name = f"n{i}"
+        elif names == "unnamed":
+            node.name = ""
+        elif names == "same":
+            node.name = "x"
+        else:
+            node.name = "L"
         for c in sh:
             rec(c, node.add_child(), i)
 
@@ -161,8 +173,12 @@ def build(shape):
     return root, nodes, parent
 
 
-def lca_shape_fails(shape, full_triples=True, rng=None):
-    root, nodes, parent = build(shape)
+def lca_shape_fails(shape, full_triples=True, rng=None, names="unique"):
+    root, nodes, parent = build(shape, names)
+    if names == "leafdup":
+        leafnames = [nd.name for nd in nodes if nd.is_leaf()]
+        for k, nd in enumerate(n_ for n_ in nodes if not n_.is_leaf()):
+            nd.name = leafnames[k % len(leafnames)]
     n = len(nodes)
     anc = []
     for i in range(n):
@@ -213,13 +229,18 @@ def lca_shape_fails(shape, full_triples=True, rng=None):
 
 
 def lca_item(item):
-    rng = random.Random(item.get("seed", 0))
-    fails, nq = lca_shape_fails(item["shape"], item.get("full", True), rng)
-    out = dict(obligations=nq, discharged=nq - len(fails), violations=[], paths=1, nontrivial=len(str(item["shape"])) > 6, item=item)
-    if fails:
-        out["violations"].append({"kind": "lca", "text": f"tree {item['shape']}: {fails[:4]}",
-                                  "signature": {"kind": "lca", "shape": item["shape"]},
-                                  "data": {"what": "lca", "shape": item["shape"]}, "confirmed": True})
+    out = dict(obligations=0, discharged=0, violations=[], paths=1, nontrivial=len(str(item["shape"])) > 6, item=item)
+    nq = 0
+    for names in item.get("names", ["unique"]):
+        rng = random.Random(item.get("seed", 0))
+        fails, k = lca_shape_fails(item["shape"], item.get("full", True), rng, names)
+        nq += k
+        out["obligations"] += k
+        out["discharged"] += k - len(fails)
+        if fails:
+            out["violations"].append({"kind": "lca", "text": f"tree {item['shape']} (node names: {names}): {fails[:4]}",
+                                      "signature": {"kind": "lca", "shape": item["shape"], "names": names},
+                                      "data": {"what": "lca", "shape": item["shape"], "names": names}, "confirmed": True})
     if item.get("sample"):
         out["sample"] = {"structure": "LowestCommonAncestor", "tree (nested child lists)": item["shape"], "queries": nq}
     return out
@@ -252,7 +273,7 @@ def replay(data):
         r = RMQ._ilog2(data["value"])
         cf = [] if (1 << r) <= data["value"] < (1 << (r + 1)) else [f"_ilog2({data['value']}) = {r}"]
     else:
-        cf, _ = lca_shape_fails(data["shape"])
+        cf, _ = lca_shape_fails(data["shape"], names=data.get("names", "unique"))
     for t in cf[:5]:
         print("  reproduced:", t)
     return bool(cf)
@@ -272,10 +293,11 @@ def main(argv=None):
     items.sort(key=lambda it: -it.get("n", 0))
     res, sk = R.run_sharded(worker, items, 3000)
     rep.add_results("range-minimum (solver)", res, sk, exhaustive=True)
-    shapes = [{"kind": "lca", "shape": s, "sample": (k == 5 and i == 3)} for k in range(1, nodes + 1) for i, s in enumerate(plane_trees(k))]
+    shapes = [{"kind": "lca", "shape": s, "sample": (k == 5 and i == 3), "names": list(NAME_MODES)} for k in range(1, nodes + 1) for i, s in enumerate(plane_trees(k))]
     res, sk = R.run_sharded(worker, shapes, 3000)
     rep.add_results("ancestry (exhaustive structural enumeration)", res, sk, exhaustive=True)
-    rnd = [{"kind": "lca", "shape": random_shape(rng, rng.randint(8, 40)), "full": False, "seed": rng.randrange(10 ** 6)} for _ in range(nrand)]
+    rnd = [{"kind": "lca", "shape": random_shape(rng, rng.randint(8, 40)), "full": False, "seed": rng.randrange(10 ** 6),
+            "names": ["unique", rng.choice(NAME_MODES[1:])]} for _ in range(nrand)]
     res, sk = R.run_sharded(worker, rnd, 3000)
     rep.add_results("ancestry (seeded larger trees, sampled triples)", res, sk, exhaustive=False)
     import superrec2.utils.trees as T
@@ -286,7 +308,8 @@ def main(argv=None):
     rep.bounds = {"range-minimum": f"array length 1..{n_ite}, elements = unconstrained symbolic integers, every (start, stop) in [0,n]^2 "
                                    f"(empty and reversed ranges included); lengths 1..{n_fork} additionally with the real builtin min",
                   "_ilog2": "every value in [1, 2^24)",
-                  "ancestry": f"every rooted plane tree of any arity with <= {nodes} nodes, every node, pair and triple; "
+                  "ancestry": f"every rooted plane tree of any arity with <= {nodes} nodes, every node, pair and triple, under four naming schemes (unique names; "
+                              f"unnamed ancestors; one shared name; ancestors named like leaves - the queries are about node identity); "
                               f"{nrand} seeded trees with 8-40 nodes (all pairs, 300 sampled triples)"}
     rep.stubs = ["range_min_query.min -> ite model of the builtin (left-biased min(a,b) = ite(b<a, b, a)) for n > %d" % n_fork]
     rep.assumptions = ["the ancestry sub-claim has no numeric dimension: it is decided by exhaustive enumeration of the stated finite space, not by the solver"]
